@@ -79,6 +79,9 @@ class C38(EngineDCheck):
             ref_as |= r['asserts']
         for r in mcs:
             red = r['red']
+            if r['illegal']:
+                viol.append(('illegal_value_' + red, '%s made the application take a value that the transition does not offer: %s'
+                             % (r['config'], '; '.join(r['illegal']))))
             if not r['finished']:
                 if r['stalled']:
                     viol.append(('stall_' + red, 'simgrid-mc %s: checker and application all sleep without consuming cpu '
@@ -100,6 +103,10 @@ class C38(EngineDCheck):
                 continue
             tag = red + ('_befs' if r['algo'] == 'BeFS' and red != 'udpor' else '') + \
                 ('_uniform' if r['strategy'] == 'uniform' else '')
+            if r['asserts'] and red != 'none':
+                # after an assertion failure the reductions go on with a placeholder transition (max-errors != 0): what
+                # they miss from there on is kept apart from what they miss on failure-free programs
+                tag = 'after_assert_' + tag
             for name, ref, got in (('outcome', ref_term, r['outcomes']), ('deadlock', ref_dl, r['dl_sigs']),
                                    ('assert', ref_as, r['asserts'])):
                 miss = sorted(ref - got, key=str)
